@@ -35,6 +35,40 @@ func init() {
 }
 
 func c13Rules(tier string) []Rule {
+	rules := c13RulesBase(tier)
+	// adding a pod always replaces the held reservations by the list CanAdd computed for it — also by the empty list
+	// (a pod that excludes every reserved offering must not leave the NodeClaim pinned to a reservation)
+	rules = append(rules, POST{ID: "C13.POST3", Fn: "(*sched.NodeClaim).Add", From: "", Must: []string{`^store \$0\.reservedOfferings = \$6$`}, Note: "every path through Add stores the new reservation list"},
+		POST{ID: "C13.POST3b", Fn: "(*sched.NodeClaim).Add", From: "", Must: []string{`^call \(\*sched\.NodeClaim\)\.releaseReservedOfferings\(\$0, \$0\.reservedOfferings, \$6\)$`}, Note: "…and releases what is no longer held"})
+	// instance types are ranked / truncated under the NodeClaim's own (pod-narrowed) requirements
+	rules = append(rules, core.Custom{ID: "C13.PROV8", Kind: "PROV", Run: func(w *core.World, id string) []core.Result {
+		const f = "(sched.Results).TruncateInstanceTypes"
+		fn := w.Fn(f)
+		if fn == nil {
+			return []core.Result{core.Anchor(id, "PROV", f)}
+		}
+		n := 0
+		for _, s := range w.SitesOr(fn, regexp.MustCompile(`^call \(cloudprovider\.InstanceTypes\)\.Truncate\(`), true, 1) {
+			c, ok := s.(*ssa.Call)
+			if !ok || len(c.Call.Args) < 3 {
+				continue
+			}
+			n++
+			a0, a1 := w.RenderD(c.Call.Args[0], 9), w.RenderD(c.Call.Args[len(c.Call.Args)-2], 9)
+			const suf = ".NodeClaimTemplate.InstanceTypeOptions"
+			if !strings.HasSuffix(a0, suf) || a1 != strings.TrimSuffix(a0, suf)+".NodeClaimTemplate.Requirements" {
+				return []core.Result{core.Bad(id, "PROV", "PROV:"+f+":truncate-requirements", w.InstrPos(s), "the options `"+clipStr(a0, 70)+"` are truncated under `"+clipStr(a1, 70)+"`, not under the same NodeClaim's requirements")}
+			}
+		}
+		if n == 0 {
+			return []core.Result{core.Bad(id, "PROV", "PROV:"+f+":truncate-requirements", w.Pos(fn.Pos()), "vacuous: no Truncate call")}
+		}
+		return []core.Result{core.OK(id, "PROV", "PROV:"+f+":truncate-requirements", n, "Truncate(nc.InstanceTypeOptions, nc.Requirements, max)")}
+	}})
+	return rules
+}
+
+func c13RulesBase(tier string) []Rule {
 	const (
 		nsrs  = "(scheduling.Requirements).NodeSelectorRequirements"
 		nsr   = "(*scheduling.Requirement).NodeSelectorRequirement"
